@@ -1,4 +1,6 @@
 import IdModel.Jose.JwsLemmas
+import IdModel.Jose.Sign
+import IdModel.Val.PModel
 import IdModel.Props.C11
 /-!
 # C08 — every JWS the library produces decodes and verifies to what was signed
@@ -318,6 +320,217 @@ theorem encoder_accepts_iff_validate (S : Hdr → Bytes) (payload : Bytes) (h : 
   | error e => simp
   | ok u => cases u; simp
 
+
+/-! ## storage-backed signing (`JwkDocumentExt::create_jws`): header assembly, refusals, round trip, binding -/
+
+section Signing
+open IdModel.Gen.C08
+
+/-- **what was requested is what the protected header carries**: `alg` of the method's key, `kid` = the option or the
+method's id, `typ` = the option or `JWT`, `cty` / `url` / `nonce` / custom parameters exactly as requested, the
+attached JWK is the method's own key, `b64` is written (as `false`, with `crit = ["b64"]`) exactly when `false` was
+requested.  (Every clause is read off the source on each run: `IdModel.Gen.C08`.) -/
+theorem createHeader_spec (alg mid : String) (key : Nat) (o : SigOpts) :
+    (createHeader alg mid key o).alg = some alg ∧
+    (createHeader alg mid key o).kid = some (o.kid.getD mid) ∧
+    (createHeader alg mid key o).typ = some (o.typ.getD "JWT") ∧
+    (createHeader alg mid key o).cty = o.cty ∧
+    (createHeader alg mid key o).url = o.url ∧
+    (createHeader alg mid key o).nonce = o.nonce ∧
+    (createHeader alg mid key o).jwk = (if o.attachJwk then some key else none) ∧
+    (createHeader alg mid key o).custom = o.custom ∧
+    ((createHeader alg mid key o).b64 = some false ↔ o.b64 = some false) ∧
+    ((createHeader alg mid key o).b64 = none ↔ o.b64 ≠ some false) ∧
+    ((createHeader alg mid key o).crit = (if o.b64 = some false then some ["b64"] else none)) := by
+  have h1 : algFromMethodKey = true := by decide
+  have h2 : kidDefaultsToMethodId = true := by decide
+  have h3 : typFromOptionOrDefault = true := by decide
+  have h4 : typDefault = "JWT" := by decide
+  have h5 : ctyCopied = true := by decide
+  have h6 : urlCopied = true := by decide
+  have h7 : nonceCopied = true := by decide
+  have h8 : attachJwkAttachesMethodKey = true := by decide
+  have h9 : b64FalseSetsCrit = true := by decide
+  have h10 : customCopied = true := by decide
+  have h11 : noOtherParameter = true := by decide
+  unfold createHeader
+  simp only [h1, h2, h3, h4, h5, h6, h7, h8, h9, h10, h11, ↓reduceIte, Bool.and_self, true_and]
+  by_cases hb : o.b64 = some false <;> simp [hb]
+
+/-- **the assembled header always satisfies the header policy** (C11), whatever the options -/
+theorem createHeader_policy_ok (alg mid : String) (key : Nat) (o : SigOpts) :
+    validateCompact (createHeader alg mid key o).toHdr = .ok () := by
+  obtain ⟨_, _, _, _, _, _, _, _, hb, hn, hc⟩ := createHeader_spec alg mid key o
+  unfold validateCompact validate validateDisjoint
+  simp only
+  by_cases hf : o.b64 = some false
+  · have hb' := hb.2 hf
+    have hc' : (createHeader alg mid key o).crit = some ["b64"] := by rw [hc, if_pos hf]
+    have e1 : validateCrit (some (createHeader alg mid key o).toHdr) none = .ok () := by
+      unfold validateCrit
+      simp only [Option.map_none, Option.getD_none, Bool.false_eq_true, ↓reduceIte, Option.bind_some, SigHdr.toHdr,
+        hc', Option.map_some, List.isEmpty_cons, Option.getD_some]
+      have p1 : ¬ ("b64" ∈ Gen.C11.predefined) := by decide
+      have p2 : "b64" ∈ Gen.C11.permittedCrits := by decide
+      unfold critLoop critExists has
+      have q1 : ("b64" == "alg") = false := by decide
+      simp [p1, p2, hb', q1, critLoop]
+    rw [e1]
+    unfold validateB64
+    simp [SigHdr.toHdr, hb', hc']
+  · have hb' := hn.2 hf
+    have hc' : (createHeader alg mid key o).crit = none := by rw [hc, if_neg hf]
+    have e1 : validateCrit (some (createHeader alg mid key o).toHdr) none = .ok () := by
+      unfold validateCrit
+      simp [SigHdr.toHdr, hc', critLoop]
+    rw [e1]
+    unfold validateB64
+    simp [SigHdr.toHdr, hb', hc']
+
+/-- **`create_jws` refuses exactly one thing**: an unencoded (`b64 = false`) attached payload that is outside the
+compact form's character set -/
+theorem createJws_refuses_iff (S : Hdr → Bytes) (payload : Bytes) (alg mid : String) (key : Nat) (o : SigOpts) :
+    createJws S payload alg mid key o = none ↔
+      (o.b64 = some false ∧ o.detached = false ∧ charsetOk .default payload = false) := by
+  obtain ⟨_, _, _, _, _, _, _, _, hb, hn, _⟩ := createHeader_spec alg mid key o
+  have hd : detachedOption = true := by decide
+  unfold createJws compactNew sigCompactOpts
+  rw [createHeader_policy_ok]
+  simp only [hd, ↓reduceIte]
+  have hx : extractB64 (some (createHeader alg mid key o).toHdr) = ((createHeader alg mid key o).b64).getD true := by
+    unfold extractB64; simp [SigHdr.toHdr]; rfl
+  by_cases hdet : o.detached = true
+  · simp [hdet]
+  · have hdet' : o.detached = false := by simpa using hdet
+    simp only [hdet', Bool.false_eq_true, ↓reduceIte, hx]
+    by_cases hf : o.b64 = some false
+    · rw [hb.2 hf]
+      simp only [Option.getD_some, Bool.false_eq_true, ↓reduceIte]
+      by_cases hcs : charsetOk .default payload = true
+      · simp [hcs, hf]
+      · have : charsetOk .default payload = false := by simpa using hcs
+        simp [this, hf]
+    · rw [hn.2 hf]
+      simp [hf]
+
+/-- **the token `create_jws` produces decodes, with the library's own decoder, to the header that was assembled, the
+payload and the signing input that were signed** (the detached payload handed to the decoder being the signed
+payload bytes) -/
+theorem createJws_roundtrip (S : Hdr → Bytes) (P : Bytes → Option Hdr) (hc : Codec S P)
+    (payload sig : Bytes) (alg mid : String) (key : Nat) (o : SigOpts) (e : CompactEnc)
+    (hne : payload ≠ []) (hpl : B64.Bytes payload) (hsig : B64.Bytes sig)
+    (he : createJws S payload alg mid key o = some e) :
+    decodeCompact P (compactIntoJws e sig)
+        (if o.detached then some (maybeEncode payload (some (createHeader alg mid key o).toHdr)) else none) =
+      some { prot := some (createHeader alg mid key o).toHdr, unprot := none, signingInput := e.signingInput,
+             signature := sig, claims := payload } := by
+  have hd : detachedOption = true := by decide
+  unfold createJws at he
+  by_cases hdet : o.detached = true
+  · have ho : sigCompactOpts o = .detached := by unfold sigCompactOpts; simp [hd, hdet]
+    rw [ho] at he
+    have key' := compact_roundtrip S P hc payload sig (createHeader alg mid key o).toHdr .detached e hne hpl hsig he
+    simp only [hdet, ↓reduceIte]
+    exact key'
+  · have hdet' : o.detached = false := by simpa using hdet
+    have ho : sigCompactOpts o = .nonDetached .default := by unfold sigCompactOpts; simp [hd, hdet']
+    rw [ho] at he
+    have key' := compact_roundtrip S P hc payload sig (createHeader alg mid key o).toHdr (.nonDetached .default) e hne hpl hsig he
+    simp only [hdet', Bool.false_eq_true, ↓reduceIte]
+    exact key'
+
+/-- the JWT wrappers refuse a detached payload and `b64 = false`, and otherwise are `create_jws` -/
+theorem createJwt_spec (S : Hdr → Bytes) (payload : Bytes) (alg mid : String) (key : Nat) (o : SigOpts) :
+    createJwt S payload alg mid key o =
+      (if o.detached = true ∨ o.b64 = some false then none else createJws S payload alg mid key o) := by
+  have h1 : credentialJwtRefusesDetachedAndUnencoded = true := by decide
+  have h2 : presentationJwtRefusesDetachedAndUnencoded = true := by decide
+  unfold createJwt
+  simp only [h1, h2, Bool.and_self, ↓reduceIte]
+  by_cases hdet : o.detached = true
+  · simp [hdet]
+  · have hdet' : o.detached = false := by simpa using hdet
+    cases hb : o.b64 with
+    | none => simp [hdet']
+    | some b => cases b <;> simp [hdet']
+
+end Signing
+
+section Binding
+open IdModel.Doc IdModel.Val
+
+/-- the token `create_jws` yields for method `m`, as `verify_jws` sees it: the `kid` (the option's value, read as a
+method query, or the method's id), the nonce, and the key that signed — the key the method's JWK denotes (C15) -/
+def signedTok (m : Method) (kid : Option Query) (nonce : Option Nat) : PTok :=
+  { kid := some (kid.getD (Query.ofId m.id)), nonce := nonce, sigKey := m.body, claims := none, issIsDid := false }
+
+/-- **a token verifies exactly when** the verifier's nonce is the signed one and the method found — by the configured
+method id, else by the token's kid — **within the configured scope** holds the key that signed -/
+theorem signed_verifies_iff (doc : Doc) (m : Method) (kid : Option Query) (nonce : Option Nat) (vo : PVOpts) :
+    verifyJws doc (signedTok m kid nonce) vo = .ok () ↔
+      (nonce = vo.nonce ∧ ∃ m', resolveMethod doc
+          ((vo.methodId.map Query.ofId).getD (kid.getD (Query.ofId m.id))) vo.scope = some m' ∧
+          m'.body ≠ 0 ∧ m'.body = m.body) := by
+  unfold verifyJws queryOf signedTok
+  simp only
+  by_cases hn : nonce = vo.nonce
+  · simp only [hn, ne_eq, not_true_eq_false, ↓reduceIte, true_and]
+    cases hm : vo.methodId with
+    | none =>
+      simp only [Option.map_none, Option.getD_none]
+      cases hr : resolveMethod doc (kid.getD (Query.ofId m.id)) vo.scope with
+      | none => simp
+      | some m' =>
+        simp only [Option.some.injEq, exists_eq_left']
+        by_cases h0 : m'.body = 0
+        · simp [h0]
+        · by_cases h1 : m'.body = m.body
+          · simp [h1]
+          · simp [h0, h1]
+    | some mid =>
+      simp only [Option.map_some, Option.getD_some]
+      cases hr : resolveMethod doc (Query.ofId mid) vo.scope with
+      | none => simp
+      | some m' =>
+        simp only [Option.some.injEq, exists_eq_left']
+        by_cases h0 : m'.body = 0
+        · simp [h0]
+        · by_cases h1 : m'.body = m.body
+          · simp [h1]
+          · simp [h0, h1]
+  · simp [hn]
+
+/-- a different nonce (or a nonce on one side only) is refused -/
+theorem signed_other_nonce_refused (doc : Doc) (m : Method) (kid : Option Query) (nonce : Option Nat) (vo : PVOpts)
+    (h : nonce ≠ vo.nonce) : verifyJws doc (signedTok m kid nonce) vo = .error .nonce := by
+  unfold verifyJws signedTok; simp [h]
+
+/-- a scope in which the addressed method is not found is refused -/
+theorem signed_excluding_scope_refused (doc : Doc) (m : Method) (kid : Option Query) (nonce : Option Nat) (vo : PVOpts)
+    (h : resolveMethod doc ((vo.methodId.map Query.ofId).getD (kid.getD (Query.ofId m.id))) vo.scope = none) :
+    verifyJws doc (signedTok m kid nonce) vo ≠ .ok () := by
+  intro hok
+  obtain ⟨_, m', hr, _⟩ := (signed_verifies_iff doc m kid nonce vo).1 hok
+  rw [h] at hr; cases hr
+
+/-- another method's key is refused: when the method found holds a different key the token does not verify -/
+theorem signed_other_key_refused (doc : Doc) (m m' : Method) (kid : Option Query) (nonce : Option Nat) (vo : PVOpts)
+    (hr : resolveMethod doc ((vo.methodId.map Query.ofId).getD (kid.getD (Query.ofId m.id))) vo.scope = some m')
+    (hk : m'.body ≠ m.body) : verifyJws doc (signedTok m kid nonce) vo ≠ .ok () := by
+  intro hok
+  obtain ⟨_, m'', hr', _, he⟩ := (signed_verifies_iff doc m kid nonce vo).1 hok
+  rw [hr] at hr'; cases hr'; exact hk he
+
+/-- it verifies against the document and key it was produced for: default kid, the signed nonce, and a scope (or none)
+in which the method's id resolves to the method -/
+theorem signed_verifies_own (doc : Doc) (m : Method) (nonce : Option Nat) (scope : Option Scope) (e x : Int)
+    (hk : m.body ≠ 0) (hr : resolveMethod doc (Query.ofId m.id) scope = some m) :
+    verifyJws doc (signedTok m none nonce) ⟨nonce, none, scope, e, x⟩ = .ok () := by
+  rw [signed_verifies_iff]
+  exact ⟨rfl, m, by simpa using hr, hk, rfl⟩
+
+end Binding
+
 /-! ## non-vacuity -/
 
 def Sex (_ : Hdr) : Bytes := [123, 125]
@@ -326,5 +539,29 @@ def Pex (b : Bytes) : Option Hdr := if b = [123, 125] then some { alg := some "E
 example : (compactNew Sex [104, 105] { alg := some "EdDSA" } (.nonDetached .default)).map
     (fun e => decodeCompact Pex (compactIntoJws e [9]) none |>.map (·.claims)) = some (some [104, 105]) := by
   decide +kernel
+
+/-- storage-backed signing: a request with every option set assembles a header that passes the policy, is signed, and
+the refusal condition is met by a concrete request -/
+example : (createHeader "EdDSA" "did:ex:1#k" 7
+    { attachJwk := true, b64 := some false, typ := some "vc+jwt", nonce := some "n 1", kid := some "my kid", custom := ["x"] }).toHdr =
+    { alg := some "EdDSA", b64 := some false, crit := some ["b64"], fields := ["jwk", "kid", "typ", "nonce"], custom := ["x"] } := by
+  decide
+
+example : (createJws Sex [104, 105] "EdDSA" "m" 7 { b64 := some false }).isSome = true ∧
+    createJws Sex [104, 46] "EdDSA" "m" 7 { b64 := some false } = none ∧
+    (createJws Sex [104, 46] "EdDSA" "m" 7 { b64 := some false, detached := true }).isSome = true := by
+  decide +kernel
+
+open IdModel.Doc IdModel.Val in
+/-- a document with one authentication method: its token verifies under the authentication scope and no scope, not
+under the assertion scope, not with another nonce -/
+example :
+    let m : Method := ⟨⟨1, 0, some 2⟩, 9⟩
+    let doc : Doc := ⟨1, [], [.embed m], [], [], [], [], []⟩
+    verifyJws doc (signedTok m none (some 5)) ⟨some 5, none, some (.rel .auth), 0, 0⟩ = .ok () ∧
+    verifyJws doc (signedTok m none (some 5)) ⟨some 5, none, none, 0, 0⟩ = .ok () ∧
+    verifyJws doc (signedTok m none (some 5)) ⟨some 5, none, some (.rel .asrt), 0, 0⟩ = .error .methodNotFound ∧
+    verifyJws doc (signedTok m none (some 5)) ⟨some 6, none, none, 0, 0⟩ = .error .nonce := by
+  decide
 
 end IdModel.Props.C08
